@@ -139,14 +139,17 @@ CLAIMED = {
         level="proof",
         text="Lean model of the JSON grammar over UTF-16 code units (white space, literals, the number grammar, strings with every escape, arrays, "
              "objects), of JSON.parse's value mapping (duplicate keys keep the first position and the last value, __proto__ is an ordinary key) "
-             "and of JSON.stringify's serialisation (QuoteJSONString with well-formed escaping of unpaired surrogates). Theorems: parse_unit and "
-             "string_roundtrip (for EVERY sequence of code units - quotes, backslashes, control characters, lone surrogates in any position - "
-             "parsing the quoted form returns the sequence and stops after the closing quote), quoteUnit_no_control (the serialiser never emits a "
-             "raw control character), hex_roundtrip. PARTIAL: the whole-value round trip parse(stringify v) = v is proved for strings and checked "
-             "by `decide` on examples, not yet proved for arbitrary trees. The model is tied to the engine by correspondence on generated texts "
-             "(valid renderings in two styles, single-unit mutations, fixed near-misses): same verdict and same value tree; same stringify text; "
-             "engine-only parse(stringify(v)) = v.",
-        technique="Lean 4 model of the JSON grammar/serialiser with round-trip proofs for strings + differential correspondence (verdict, value tree, serialised text) on generated and mutated texts",
+             "and of JSON.stringify's serialisation (QuoteJSONString with well-formed escaping of unpaired surrogates). Theorems: parse_stringify "
+             "(THE WHOLE-VALUE ROUND TRIP: for every value tree of any depth and width whose numbers are valid tokens, whose strings are "
+             "arbitrary sequences of 16-bit code units and whose objects have distinct keys, parsing the serialised text returns the value; "
+             "mutual structural induction over values, element lists and member lists: rtV / rtL / rtO, fuel bounds szV_le / szL_le / szO_le), "
+             "parse_unit and string_roundtrip (for EVERY sequence of code units - quotes, backslashes, control characters, lone surrogates in "
+             "any position - parsing the quoted form returns the sequence and stops after the closing quote), quoteUnit_no_control (the "
+             "serialiser never emits a raw control character), hex_roundtrip, objSet_fresh. The completeness direction (every accepted text "
+             "is grammatical) is not proved. The model is tied to the engine by correspondence on generated texts (valid renderings in two "
+             "styles, single-unit mutations, fixed near-misses): same verdict and same value tree; same stringify text; engine-only "
+             "parse(stringify(v)) = v.",
+        technique="Lean 4 model of the JSON grammar/serialiser with a whole-value round-trip proof (mutual induction) + differential correspondence (verdict, value tree, serialised text) on generated and mutated texts",
         note="reviver/replacer/indent/toJSON/rawJSON not covered; numbers compared by value (their text is C13). Known finding C18-nesting-128.",
     ),
     "C13": dict(
